@@ -7,7 +7,10 @@
 (*           of the per-line preconditions established by the harness      *)
 (*           (JSON-schema validity with the repository's own schema files, *)
 (*           Accept / Content-Type media type, non-negative sizes)         *)
-(*   offer   one action of a batch response: (oid, rel, href, headers)     *)
+(*   offer   one action of a batch response: (oid, rel, href, headers) and  *)
+(*           the transfer adapter the response names ("basic" when it      *)
+(*           names none, docs/api/batch.md); the adapter decides the       *)
+(*           method: basic uploads with PUT, tus.io with HEAD and PATCH    *)
 (*   use     a storage or verify request: must be exactly an offered       *)
 (*           action - right method for the rel, same href, every offered   *)
 (*           header present with the offered value, also where the client  *)
@@ -30,6 +33,7 @@ E == Trace[l]
 Is(e) == l <= Len(Trace) /\ E.ev = e /\ l' = l + 1
 
 MethodFor(rel) == CASE rel = "download" -> "GET" [] rel = "upload" -> "PUT" [] rel = "verify" -> "POST" [] OTHER -> "?"
+MethodsFor(rel, adapter) == IF rel = "upload" /\ adapter = "tus" THEN {"HEAD", "PATCH"} ELSE {MethodFor(rel)}
 
 Init  == l = 1 /\ asked = {} /\ offered = {} /\ poisoned = FALSE /\ cursors = {}
 Reset == Is("reset") /\ asked' = {} /\ offered' = {} /\ poisoned' = FALSE /\ cursors' = {}
@@ -41,13 +45,13 @@ Batch == /\ Is("batch")
          /\ UNCHANGED <<offered, poisoned, cursors>>
 Offer == /\ Is("offer")
          /\ E.oid \in asked                                          \* the server answers about what was asked
-         /\ offered' = offered \cup {<<E.oid, E.rel, E.href>>}
+         /\ offered' = offered \cup {<<E.oid, E.rel, E.href, E.adapter>>}
          /\ UNCHANGED <<asked, poisoned, cursors>>
 HashAlgo == Is("hashalgo") /\ poisoned' = TRUE /\ offered' = {} /\ UNCHANGED <<asked, cursors>>
 Use   == /\ Is("use")
          /\ ~poisoned                                                \* HashAlgoRejected
-         /\ <<E.oid, E.rel, E.href>> \in offered                     \* ActionAsOffered: same object, same URL
-         /\ E.method = MethodFor(E.rel)
+         /\ \E ad \in {"basic", "tus"} :                             \* ActionAsOffered: same object, same URL,
+              <<E.oid, E.rel, E.href, ad>> \in offered /\ E.method \in MethodsFor(E.rel, ad)   \* the offered adapter's method
          /\ E.hdrOk                                                  \* every offered header is sent
          /\ (E.rel = "verify" => (E.bodyOk /\ E.acceptOk /\ E.ctypeOk))
          /\ UNCHANGED <<asked, offered, poisoned, cursors>>
